@@ -163,13 +163,24 @@ func c07r2(p *Prog, r *Reporter) {
 					}
 					// next: If Indices != nil → MapUpdate(Indices, table)
 					okc := false
+					valueWhy := ""
 					if atom, trueSucc, isIf := ifCond(b); isIf {
 						if bo, isB := atom.(*ssa.BinOp); isB && bo.Op == token.NEQ && isNilConst(bo.Y) {
 							if _, f, bs, ok := loadedField(bo.X); ok && f == "Indices" && bs == base {
 								for _, i2 := range b.Succs[trueSucc].Instrs {
 									if mu, ok := i2.(*ssa.MapUpdate); ok {
 										if _, f2, _, ok := loadedField(mu.Map); ok && f2 == "Indices" && apath(mu.Key) == apath(table) {
-											okc = true
+											// the recorded value must be the new last position of this list: Len() - 1 (or len(pointers) - 1)
+											if bo, isB := stripConvs(mu.Value).(*ssa.BinOp); isB && bo.Op == token.SUB && isConstInt(bo.Y, 1) {
+												if lc := callOf(stripConvs(bo.X)); lc != nil && len(lc.Common().Args) > 0 {
+													if _, f3, b3, ok := loadedField(lc.Common().Args[0]); ok && (f3 == "Archetypes" || f3 == "pointers") && strings.HasPrefix(b3, base[:len(base)]) {
+														okc = true
+													}
+												}
+											}
+											if !okc {
+												valueWhy = "the recorded position is " + apath(mu.Value) + ", not the new last index of the list"
+											}
 										}
 									}
 								}
@@ -179,7 +190,11 @@ func c07r2(p *Prog, r *Reporter) {
 					if okc {
 						r.OK(name, "append to filter list records position"+ord, p.Pos(site.Pos()), "followed by `if Indices != nil { Indices[table] = len-1 }`")
 					} else {
-						r.Bad(name, "append to filter list records position"+ord, p.Pos(site.Pos()), "a relation table is appended to a filter's list without recording its position in Indices: it can never be removed from the list again")
+						why := "a relation table is appended to a filter's list without recording its position in Indices: it can never be removed from the list again"
+						if valueWhy != "" {
+							why = valueWhy + ": a later removal would swap-remove the wrong table"
+						}
+						r.Bad(name, "append to filter list records position"+ord, p.Pos(site.Pos()), why)
 					}
 				case "RemoveAt":
 					// result branched; true edge stores Indices[...] = idx; delete(Indices, table) follows
